@@ -46,6 +46,13 @@ def _upwind_min_max(u: FaceVariable, u_upwind: FaceVariable):
 
 
 def _fsign(phi_in, eps1=1e-16):
+    # Guard against division by zero. The threshold is taken relative to the
+    # largest gradient in phi_in (not as an absolute number), so that the TVD
+    # correction does not depend on the units in which phi and the coordinates
+    # are expressed.
+    scale = np.max(np.abs(phi_in), initial=0.0)
+    if scale > 0.0:
+        eps1 = eps1*scale
     return (np.abs(phi_in) >= eps1)*phi_in+eps1*(phi_in == 0.0)+eps1*(np.abs(phi_in) < eps1)*np.sign(phi_in)
 
 
